@@ -182,44 +182,81 @@ def method_field(ctx, name: str) -> Optional[str]:
     return fields.pop() if len(fields) == 1 else None
 
 
-def sinks_of(ctx, fi: FuncInfo, var: str, node_var: Optional[str]):
-    """fields of the node under construction that values derived from ``var`` flow into"""
+def sinks_of(ctx, fi: FuncInfo, var: Optional[str], node_var: Optional[str], source_loop=None):
+    """fields of the node under construction that values derived from ``var`` flow into.  Names bound by a loop over a derived
+    value are derived inside that loop only (the same loop-variable name may be reused by a loop over something else)."""
     nm = ctx.world.nm
     ipf = init_param_fields(ctx)
     out = set()
-    derived = {var}
-    # loop variables over var, subscripts of var
-    for _ in range(3):
-        for n in ast.walk(fi.node):
-            if isinstance(n, ast.For) and isinstance(n.iter, ast.Name) and n.iter.id in derived and isinstance(n.target, ast.Name):
-                derived.add(n.target.id)
-            if isinstance(n, ast.Assign) and len(n.targets) == 1 and isinstance(n.targets[0], ast.Name) \
-                    and any(isinstance(x, ast.Name) and x.id in derived for x in ast.walk(n.value)):
-                derived.add(n.targets[0].id)
 
-    def uses(e):
+    def loop_iter_base(it):
+        if isinstance(it, ast.Call) and isinstance(it.func, ast.Attribute) and it.func.attr in ("items", "keys", "values") and not it.args:
+            it = it.func.value
+        if isinstance(it, ast.Call) and isinstance(it.func, ast.Name) and it.func.id in ("enumerate", "list", "sorted", "reversed", "iter") and it.args:
+            it = it.args[0]
+        return it
+
+    def uses(e, derived):
         return any(isinstance(x, ast.Name) and x.id in derived for x in ast.walk(e))
 
-    for n in ast.walk(fi.node):
-        if isinstance(n, ast.Assign):
-            for t in n.targets:
-                if isinstance(t, ast.Attribute) and uses(n.value):
-                    f = nm.canon(t.attr)
-                    if f:
-                        out.add(f)
-        if isinstance(n, ast.Call):
-            f = n.func
-            if isinstance(f, ast.Attribute) and any(uses(a) for a in n.args):
-                mf = method_field(ctx, f.attr)
-                if mf:
-                    out.add(mf)
-            if isinstance(f, ast.Name) and f.id == "Node":
-                init = nm.ci.methods["__init__"]
-                pos = init.params[1:]
-                for i, a in enumerate(n.args):
-                    if uses(a) and i < len(pos) and pos[i] in ipf:
-                        out.add(ipf[pos[i]])
-                for kw in n.keywords:
-                    if uses(kw.value) and kw.arg in ipf:
-                        out.add(ipf[kw.arg])
+    def visit(stmts, derived):
+        derived = set(derived)
+        for s_ in stmts:
+            if isinstance(s_, ast.Assign) and len(s_.targets) == 1 and isinstance(s_.targets[0], ast.Name):
+                if uses(s_.value, derived):
+                    derived.add(s_.targets[0].id)
+                elif s_.targets[0].id in derived and s_.targets[0].id != var:
+                    derived.discard(s_.targets[0].id)
+            # sinks in the expressions of this statement (not in nested blocks: those are visited with their own scope)
+            heads = []
+            for fld, v in ast.iter_fields(s_):
+                if fld in ("body", "orelse", "finalbody", "handlers"):
+                    continue
+                if isinstance(v, ast.AST):
+                    heads.append(v)
+                elif isinstance(v, list):
+                    heads.extend(x for x in v if isinstance(x, ast.AST))
+            for h in heads:
+                for n in ast.walk(h):
+                    if isinstance(n, ast.Call):
+                        f = n.func
+                        if isinstance(f, ast.Attribute) and any(uses(a, derived) for a in n.args):
+                            mf = method_field(ctx, f.attr)
+                            if mf:
+                                out.add(mf)
+                        if isinstance(f, ast.Name) and f.id == "Node":
+                            init = nm.ci.methods["__init__"]
+                            pos = init.params[1:]
+                            for i, a in enumerate(n.args):
+                                if uses(a, derived) and i < len(pos) and pos[i] in ipf:
+                                    out.add(ipf[pos[i]])
+                            for kw in n.keywords:
+                                if uses(kw.value, derived) and kw.arg in ipf:
+                                    out.add(ipf[kw.arg])
+            if isinstance(s_, ast.Assign):
+                for t in s_.targets:
+                    if isinstance(t, ast.Attribute) and uses(s_.value, derived):
+                        f = nm.canon(t.attr)
+                        if f:
+                            out.add(f)
+            # nested blocks
+            if isinstance(s_, ast.For):
+                inner = set(derived)
+                b = loop_iter_base(s_.iter)
+                names_t = {x.id for x in ast.walk(s_.target) if isinstance(x, ast.Name)}
+                if uses(b, derived) or s_ is source_loop:
+                    inner |= names_t
+                else:
+                    inner -= names_t
+                visit(s_.body, inner)
+                visit(s_.orelse, derived)
+            else:
+                for fld in ("body", "orelse", "finalbody"):
+                    b = getattr(s_, fld, None)
+                    if isinstance(b, list) and b and isinstance(b[0], ast.stmt):
+                        visit(b, derived)
+                if isinstance(s_, ast.Try):
+                    for h in s_.handlers:
+                        visit(h.body, derived)
+    visit(fi.node.body, {var} if var else set())
     return out
